@@ -51,7 +51,18 @@ def gen_function(modname, qualname, reg, theory=None):
     except RecursionError:
         err = 'path explosion (recursion limit)'
     return dict(name=cname, obls=ex.obls, decls=ex.decl_lines(), error=err, dropped=ex.dropped,
-                hash=core.fn_hash(fn) + '.' + core.class_context(mod), paths=ex.paths)
+                hash=core.fn_hash(fn) + '.' + core.class_context(mod) + _inlined_hash(ex), paths=ex.paths)
+
+
+def _inlined_hash(ex):
+    """helpers without a contract that were executed in place: their text is part of what was verified"""
+    out = ''
+    for q in sorted(getattr(ex, 'inlined', ())):
+        m, qn = q.split('.', 1)
+        f = core.module(m).functions.get(qn)
+        if f is not None:
+            out += '+' + core.fn_hash(f)[:8]
+    return out
 
 
 def discharge(gens, prelude_text, timeout=10, jobs=None):
